@@ -17,7 +17,13 @@ type ColAuto struct {
 // Infer and initialize Column from ColumnType.
 func (c *ColAuto) Infer(t ColumnType) error {
 	if c.Data != nil && !c.Type().Conflicts(t) {
-		// Already ok.
+		// Already ok, but the parameters of the type (enum values, precision,
+		// time zone, also of elements) can differ from the previous ones.
+		if v, ok := c.Data.(Inferable); ok {
+			if err := v.Infer(t); err != nil {
+				return errors.Wrap(err, "infer")
+			}
+		}
 		c.DataType = t // update subtype if needed
 		return nil
 	}
